@@ -9,6 +9,9 @@ A scripted path has three dates (0, T/2, T). Its terminal value is  deterministi
 three parts non-zero, and a decoy value at T/2, so that a payoff evaluated on a wrong date or on a part of the path only is
 visible. In the identity representation every part is dyadic: the sum is exact and equals the scripted letter.
 
+Ragged letters (grid id, spots ...) script a path on its OWN time grid (GRIDS: 2, 3 or 4 dates, same end points, other
+interior dates), with the deterministic part x0 + drift t of the case (`det`); the reference reads every path on its own dates.
+
 The reference model (pure Python, math.fsum) is in this file too: payoff rows, control rows, given control prices.
 """
 from __future__ import annotations
@@ -33,18 +36,39 @@ ALPHABETS = {
     # and 0.75 (down) the value at T/2 crosses up (2.0), down (0.25) or not at all (1.0), and the terminal values 1.5 / 0.5
     # cross on their own.
     "B9": tuple((m, t) for m in (1.0, 2.0, 0.25) for t in (0.5, 1.0, 1.5)),
+    # narrow sample around a large mean (|mean| / standard deviation about 1e6): a one-pass variance loses its digits here
+    "N3": (1024.0, 1024.0009765625, 1024.001953125),
 }
 BARRIER_UP, BARRIER_DOWN, BARRIER_STRIKE = 1.25, 0.75, 0.25
 BARRIER_KINDS = ("b-ui", "b-uo", "b-di", "b-do")
+ASIAN_KINDS = ("as", "av2")  # call(s) on the Asian underlying (time-weighted average of the spot over the dates of the path)
+PATH_KINDS = BARRIER_KINDS + ASIAN_KINDS  # payoffs that read the path at intermediate dates: need letters that script a whole path
 
-STRIKES = {"s": 0.75, "v2": [0.75, 1.25], "v3": [0.25, 0.75, 1.25],
+# Ragged time grids (jump-adapted grids of products with stochastic dates): every path brings its OWN dates. A ragged letter
+# is (grid id, spot at the 2nd date, ..., terminal spot); the path starts at spot 1 at time 0. Grids of the same length and
+# the same end points differ in their interior dates only. All dates are multiples of 1/4: with the deterministic part
+# RAGGED_DET = (x0, drift) every term of the identity representation is dyadic and the sums are exact.
+GRIDS = {"q": (0.0, 0.25, 1.0), "h": (0.0, 0.5, 1.0), "t": (0.0, 0.75, 1.0),
+         "qh": (0.0, 0.25, 0.5, 1.0), "ht": (0.0, 0.5, 0.75, 1.0), "qt": (0.0, 0.25, 0.75, 1.0), "e": (0.0, 1.0)}
+RAGGED_DET = (0.5, 0.75)  # deterministic part x0 + drift * t of the ragged cases (non-zero at time 0, time dependent)
+# enumerated ragged alphabet: the three 3-date grids x the (spot at the interior date, terminal spot) pairs of B9. With the
+# drift 0.75 the deterministic part at the interior dates of two of these grids differs by 0.1875 or 0.375: a path valued with
+# the deterministic part of ANOTHER grid moves its interior value 1.0 across the barriers 1.25 / 0.75 (grids q <-> t) and
+# moves every Asian average.
+ALPHABETS["R27"] = tuple((g, m, t) for g in ("q", "h", "t") for m in (1.0, 2.0, 0.25) for t in (0.5, 1.0, 1.5))
+_RAGGED_CYCLE = ("q", "h", "t", "qh", "ht", "qt", "e", "t", "h", "q")  # neighbours of the same length are different grids
+_RAGGED_MIDS = (1.0, 2.0, 0.25, 1.125, 0.875)
+
+FORWARD_KINDS = ("f",)  # the product is a forward: a payoff of both signs
+PUT_KINDS = ("pv2",)  # puts on a vector of strikes
+STRIKES = {"s": 0.75, "v2": [0.75, 1.25], "v3": [0.25, 0.75, 1.25], "as": 0.75, "av2": [0.75, 1.25], "f": 0.75, "pv2": [0.75, 1.25],
            # payoffs on an underlying type other than Spot (sub "mixed"): call on the log-spot / on the mean of the spots
            "ls": -0.25, "lv2": [-0.25, 0.25], "m": 0.75, "mv2": [0.75, 1.25],
            # integer-valued strikes (sub "forms": the same strikes given as Python ints / integer arrays)
            "si": 1.0, "vi2": [0.0, 1.0],
            "b-ui": BARRIER_STRIKE, "b-uo": BARRIER_STRIKE, "b-di": BARRIER_STRIKE, "b-do": BARRIER_STRIKE}
 PAYOFF_UNDERLYING = {"s": "spot", "v2": "spot", "v3": "spot", "ls": "logspot", "lv2": "logspot", "m": "mean", "mv2": "mean",
-                     "si": "spot", "vi2": "spot", "b-ui": "spot", "b-uo": "spot", "b-di": "spot", "b-do": "spot"}
+                     "as": "asian", "av2": "asian", "f": "spot", "pv2": "spot", "si": "spot", "vi2": "spot", "b-ui": "spot", "b-uo": "spot", "b-di": "spot", "b-do": "spot"}
 LFWD_K = -0.5  # strike of the forward on the log-spot
 LCALL_K = -0.25  # strike of the call on the log-spot
 
@@ -131,11 +155,12 @@ class CallCounter:
 class ScriptedProcess:
     """Duck-typed Process. `letters` are the terminal spot values of the successive paths."""
 
-    def __init__(self, letters, df, representation="identity", with_density=True):
+    def __init__(self, letters, df, representation="identity", with_density=True, det=None):
         from rpylib.process.process import ProcessRepresentation
 
         self.letters = list(letters)
         self._df = df
+        self.det = None if det is None else (float(det[0]), float(det[1]))  # deterministic part x0 + drift * t (None: the DET table)
         self.representation = representation
         self.process_representation = (
             ProcessRepresentation.IDENDITY if representation == "identity" else ProcessRepresentation.LOG
@@ -175,6 +200,8 @@ class ScriptedProcess:
 
     def deterministic_path(self, times):
         t = np.asarray(times, dtype=float)
+        if self.det is not None:
+            return self.det[0] + self.det[1] * t
         return np.interp(t, TIMES, DET)
 
     def df(self, t):
@@ -182,19 +209,23 @@ class ScriptedProcess:
         return self._df
 
     def stochastic_parts(self, k):
-        """(diffusion, jump) arrays of the k-th path. A letter is the terminal spot (decoy at T/2, path value 0 at time 0)
-        or a pair (spot at T/2, terminal spot), the path then starting at spot 1."""
+        """(times, diffusion, jump) arrays of the k-th path. A letter is the terminal spot (decoy at T/2, path value 0 at time
+        0), a pair (spot at T/2, terminal spot), the path then starting at spot 1, or a ragged letter (grid id, spots at the
+        dates of that grid after the first), the path starting at spot 1 as well."""
         letter = self.letters[k]
         ident = self.representation == "identity"
         if isinstance(letter, (tuple, list)):
-            mid, term = letter
-            x0, xm, target = (1.0, mid, term) if ident else (0.0, math.log(mid), math.log(term))
-            diff = np.array([(x0 - DET[0]) - JUMP[0], (xm - DET[1]) - JUMP[1], (target - DET[2]) - JUMP[2]])
+            times, spots = letter_path(letter)
+            jump = np.array(jump_part(len(times)))
+            target = np.array([v if ident else math.log(v) for v in spots])
+            det = np.array([det_value(self.det, t) for t in times])
+            diff = (target - det) - jump
         else:
+            times = TIMES
             target = letter if ident else math.log(letter)
-            diff = np.array([0.0, DECOY, (target - DET[2]) - JUMP[2]])
-        jump = np.array(JUMP)
-        return diff, jump
+            diff = np.array([0.0, DECOY, (target - det_value(self.det, TIMES[2])) - JUMP[2]])
+            jump = np.array(JUMP)
+        return np.array(times), diff, jump
 
     def simulate_one_path(self):
         from rpylib.montecarlo.path import StochasticJumpPath
@@ -204,16 +235,57 @@ class ScriptedProcess:
         if k >= len(self.letters):
             # more paths requested than configured: hand out an identifiable value instead of failing in the harness
             return StochasticJumpPath(np.array(TIMES), np.array([0.0, DECOY, 1e6 + k]), np.array(JUMP))
-        diff, jump = self.stochastic_parts(k)
-        return StochasticJumpPath(np.array(TIMES), diff, jump)
+        times, diff, jump = self.stochastic_parts(k)
+        return StochasticJumpPath(times, diff, jump)
 
 
-def terminal_spot(letter, representation):
+def det_value(det, t):
+    """deterministic part at time t: x0 + drift * t for det = (x0, drift), the DET table (a line through 0) for None"""
+    if det is None:
+        return float(np.interp(t, TIMES, DET))
+    return det[0] + det[1] * t
+
+
+def jump_part(m):
+    """pure-jump part of a scripted path with m dates: one jump of JUMP[2] at the last date"""
+    return [0.0] * (m - 1) + [JUMP[2]]
+
+
+def letter_path(letter):
+    """(times, spots) of the whole path scripted by a tuple letter: (spot at T/2, terminal spot) on the common grid TIMES, or
+    a ragged letter (grid id, spots after the first date) on its own grid; the path starts at spot 1."""
+    if isinstance(letter[0], str):
+        times = GRIDS[letter[0]]
+        spots = (1.0,) + tuple(letter[1:])
+        if len(spots) != len(times):
+            raise ValueError(f"ragged letter {letter!r} does not fit its grid {times}")
+        return times, spots
+    return TIMES, (1.0, letter[0], letter[1])
+
+
+def ragged_script(k, n, reverse=False):
+    """Fixed ragged script of the k-th pricing: path i runs on the grid _RAGGED_CYCLE[i + k] (neighbours of the same length
+    have different interior dates; lengths 2, 3 and 4 occur), interior spots cycle through (1, 2, 0.25, 1.125, 0.875) and
+    the terminal spots through A4."""
+    a4 = ALPHABETS["A4"]
+    out = []
+    for i in range(n):
+        pos = (n - 1 - i) if reverse else i
+        g = _RAGGED_CYCLE[(pos + k) % len(_RAGGED_CYCLE)]
+        m = len(GRIDS[g]) - 2
+        mids = tuple(_RAGGED_MIDS[(3 * pos + j + k) % len(_RAGGED_MIDS)] for j in range(m))
+        out.append((g,) + mids + (a4[(pos + k) % 4],))
+    return out
+
+
+def terminal_spot(letter, representation, det=None):
     """What the library must see as the terminal spot of a path scripted with `letter` (same association as MCPath)."""
+    jump = JUMP[2]
     if isinstance(letter, (tuple, list)):
-        letter = letter[1]
+        letter = letter[-1]
     target = letter if representation == "identity" else math.log(letter)
-    x = DET[2] + (((target - DET[2]) - JUMP[2]) + JUMP[2])
+    d = det_value(det, MATURITY)
+    x = d + (((target - d) - jump) + jump)
     return x if representation == "identity" else math.exp(x)
 
 
@@ -222,9 +294,9 @@ def terminal_spot(letter, representation):
 # ----------------------------------------------------------------------------------------------------------------------
 
 def _underlying(name):
-    from rpylib.product.underlying import LogSpot, Mean, Spot
+    from rpylib.product.underlying import Asian, LogSpot, Mean, Spot
 
-    return {"spot": Spot, "logspot": LogSpot, "mean": Mean}[name]()
+    return {"spot": Spot, "logspot": LogSpot, "mean": Mean, "asian": Asian}[name]()
 
 
 def underlying_value(name, s):
@@ -281,20 +353,39 @@ def make_product(kind, notional, forms=()):
               "b-do": BarrierType.DOWN_AND_OUT}[kind]
         payoff = Barrier(strike=strike, payoff_type=PayoffType.CALL, barrier_type=bt,
                          barrier=BARRIER_UP if kind[2] == "u" else BARRIER_DOWN)
+    elif kind in FORWARD_KINDS:
+        from rpylib.product.payoff import Forward
+
+        payoff = Forward(strike=strike)
     else:
-        payoff = Vanilla(strike=strike, payoff_type=PayoffType.CALL)
+        payoff = Vanilla(strike=strike, payoff_type=PayoffType.PUT if kind in PUT_KINDS else PayoffType.CALL)
     return Product(payoff_underlying=_underlying(PAYOFF_UNDERLYING[kind]), payoff=payoff, maturity=MATURITY, notional=notional)
 
 
+def asian_average(letter):
+    """The Asian underlying of the whole scripted path: the library's definition, sum of spot(t_i) (t_i - t_{i-1}) over the
+    dates of the path after the first, divided by the last date."""
+    times, spots = letter_path(letter)
+    return math.fsum(v * (t - t0) for v, t, t0 in zip(spots[1:], times[1:], times[:-1])) / times[-1]
+
+
 def payoff_unit(kind, s, letter=None):
-    """Undiscounted, un-notionalled payoff components of a path with terminal spot s (for the barrier kinds `letter` is the
-    scripted (spot at T/2, terminal spot) pair: the reference reads the WHOLE path 1 -> mid -> terminal)."""
+    """Undiscounted, un-notionalled payoff components of a path with terminal spot s (for the barrier and Asian kinds `letter`
+    scripts the WHOLE path - (spot at T/2, terminal spot) on the common grid or a ragged letter on its own grid - and the
+    reference reads all of it, date by date, path by path)."""
     k = STRIKES[kind]
     ks = [k] if isinstance(k, float) else k
-    u = underlying_value(PAYOFF_UNDERLYING[kind], s)
-    van = [max(u - x, 0.0) for x in ks]
+    if kind in ASIAN_KINDS:
+        if not isinstance(letter, (tuple, list)):
+            raise ValueError("an Asian payoff needs letters that script the whole path")
+        u = asian_average(letter)
+    else:
+        u = underlying_value(PAYOFF_UNDERLYING[kind], s)
+    if kind in FORWARD_KINDS:
+        return [u - x for x in ks]
+    van = [max(x - u, 0.0) for x in ks] if kind in PUT_KINDS else [max(u - x, 0.0) for x in ks]
     if kind in BARRIER_KINDS:
-        spots = (1.0, letter[0], letter[1])
+        spots = letter_path(letter)[1]
         hit = any(v > BARRIER_UP for v in spots) if kind[2] == "u" else any(v < BARRIER_DOWN for v in spots)
         alive = hit if kind[3] == "i" else not hit
         return van if alive else [0.0 for _ in van]
@@ -461,7 +552,7 @@ def build_engine(case, letters, objects=None):
     from rpylib.montecarlo.standard.engine import Engine
 
     proc = ScriptedProcess(letters, df=case["df"], representation=case.get("rep", "identity"),
-                           with_density=not case.get("nodensity"))
+                           with_density=not case.get("nodensity"), det=case.get("det"))
     product, cv = objects if objects is not None else make_objects(case)
     vr = None
     if case.get("vr"):  # a variance-reduction flag the standard engine accepts and that must not change anything
@@ -640,6 +731,13 @@ def script_letters(k, n, reverse=False):
     return [a[(3 - i + k) % 4] if reverse else a[(i + k) % 4] for i in range(n)]
 
 
+def long_script(n):
+    """Fixed script of a long run (tens of thousands of paths): letters of A4, not periodic with a small period, so that no
+    block of consecutive paths has the mean of the whole script."""
+    a = ALPHABETS["A4"]
+    return [a[(i + i // 5 + i // 64 + i // 4099) % 4] for i in range(n)]
+
+
 class HistoryObjects:
     """Product / ControlVariates objects of one history: the SAME object is handed out again when a later pricing has the
     same (payoff, notional) / (controls, payoff, notional, df), as a user re-pricing with one engine would do."""
@@ -678,7 +776,7 @@ def reference_rows(case, letters):
     dim = payoff_dim(case["payoff"])
     nt, df = case["notional"], case["df"]
     spec = control_spec(case["cv"], dim, case["payoff"])
-    S = [terminal_spot(v, rep) for v in letters]
+    S = [terminal_spot(v, rep, case.get("det")) for v in letters]
     cn = control_notionals(case["cv"], nt, len(spec))
     Y = [[(nt * p) * df for p in payoff_unit(case["payoff"], s, v)] for s, v in zip(S, letters)]
     X = [[[(cn[j] * f(s)) * df for f in fs] for j, (_, fs, _) in enumerate(spec)] for s in S]
